@@ -80,7 +80,8 @@ type Opts struct {
 }
 
 type Scn struct {
-	R *vfw.Run
+	R             *vfw.Run
+	SmallShardsOn bool // this run uses small shard size limits
 	// CraftedEvidence: payloads of evidence transactions the harness made up (see HostileEvidencePayload)
 	CraftedEvidence map[string]bool
 	W               *seamrt.World
@@ -134,6 +135,7 @@ func New(r *vfw.Run, o Opts) *Scn {
 			lim := [][2]int{{2, 4}, {3, 6}, {4, 9}}[k-1]
 			if common.VerifSetShardSizes(lim[0], lim[1]) {
 				r.Probe(fmt.Sprintf("shard_size_limits_%d_%d", lim[0], lim[1]))
+				s.SmallShardsOn = true
 			}
 		}
 	}
